@@ -11,4 +11,5 @@ import (
 func Run(r *monitor.Run) {
 	c02.RunSharedStore(r)
 	RunWire(r)
+	RunStoreFault(r)
 }
